@@ -104,15 +104,11 @@ class C24:
                    "not a wall-clock guess"]
 
     def make_context(self, rank, root=None):
-        if root is None:
-            d = tempfile.mkdtemp(prefix=f"verif-{self.id}-{rank}-")
-        else:
-            d = os.path.join(root, f"w{rank}")
-            os.makedirs(d, exist_ok=True)
-        return {"dir": d, "n": 0}
+        d, own = common.make_work_dir(self.id, rank, root)
+        return {"dir": d, "n": 0, "own_root": own}
 
     def close_context(self, ctx):
-        shutil.rmtree(ctx["dir"], ignore_errors=True)
+        shutil.rmtree(ctx.get("own_root") or ctx["dir"], ignore_errors=True)
 
     def gen_case(self, rng, tier, index):
         calls = effect_calls("@W@")
@@ -146,7 +142,7 @@ class C24:
 
     def execute(self, ctx, case):
         ctx["n"] += 1
-        root = os.path.join(ctx["dir"], f"run{ctx['n']}")
+        root = os.path.join(ctx["dir"], f"run{ctx['n']:06d}")
         os.makedirs(root)
         w = worldsim.World(root, case["token"])
         try:
